@@ -37,13 +37,15 @@ class ParserSessionProp(object):
             'use_beta': rng.random() < 0.3,
             'beta': rng.choice([1e-5, 1e-5, 1e-7]),
             'pooled_bias': rng.choice([0.3, 0.6, 0.9]),
+            'step_cap': rng.choice([20000, 5000]),
+            'step_cap_nbest': rng.choice([1500, 4000]),
         }
 
     def base_cfg(self, rng, knobs):
         return {
             'unary_penalty': knobs['unary_penalty'], 'beta': knobs['beta'],
             'use_beta': knobs['use_beta'], 'pruning_size': knobs['pruning_size'],
-            'nbest': knobs['nbest'], 'max_step': knobs.get('max_step', 30000), 'max_length': 250,
+            'nbest': knobs['nbest'], 'max_step': knobs['step_cap'] if knobs['nbest'] == 1 else knobs['step_cap_nbest'], 'max_length': 250,
         }
 
     def world_kwargs(self, rng, knobs):
@@ -90,7 +92,7 @@ class ParserSessionProp(object):
         if rng.random() < 0.7:
             sched['service'] = {str(i): round(rng.expovariate(1 / 0.4) + 0.001, 4) for i in range(n_tasks)}
         if rng.random() < 0.15 and n_tasks:
-            sched['stall'] = {str(rng.randrange(n_tasks)): 10000.0}
+            sched['stall'] = {str(rng.randrange(n_tasks)): rng.choice([90.0, 600.0])}
         if rng.random() < 0.3:
             sched['worker_choice'] = {str(i): rng.randrange(8) for i in range(n_tasks)}
         if rng.random() < 0.25:
@@ -132,7 +134,6 @@ class ParserSessionProp(object):
         else:
             victim = rng.choice(op['batch'])
             cfg = session.cfg_of(op)
-            cfg['max_step'] = 30000
             kind_, canon, resp, prec = session.alone(world, victim, cfg)
             need = prec['pops'] if prec else 1
             choice = rng.choice(['below', 'at', 'above', 'one', 'half'])
@@ -194,6 +195,7 @@ class ParserSessionProp(object):
     def execute(self, spec, executor_mode=None):
         executor_mode = executor_mode or spec.get('executor', 'inprocess')
         world = session.World(spec['world'])
+        self._last_world = world
         stats = new_stats()
         violations = []
         log = []
@@ -308,7 +310,7 @@ class ParserSessionProp(object):
                 cand = copy.deepcopy(spec)
                 f = cand['ops'][i].pop('fault')
                 if f.get('kind') == 'F1':
-                    cand['ops'][i]['max_step'] = 30000
+                    cand['ops'][i]['max_step'] = 20000 if cand['ops'][i].get('nbest', 1) == 1 else 4000
                 if f.get('kind') == 'F2':
                     cand['ops'][i]['max_length'] = 250
                 yield cand
